@@ -240,7 +240,108 @@ let tag (input : string) (out : string) : string =
 
 (* The model is proved to meet the declarative GPOS semantics (Props/C05.v); what the property observes is
    exactly what is printed: kerning, placement (variant and all fields) and the final positions. *)
-let judge (_input : string) (impl : string) (model : string) : verdict =
+(* ---- independent oracles evaluated on the IMPLEMENTATION's output (they do not use the model's result):
+   1. (spec of theorem C05_pen_positions_spec) every anchored mark whose base precedes it sits, horizontally, at
+      base position + base anchor - mark anchor under the pen convention of Model/GposSpec.v; in a right-to-left
+      run this fails when the glyphs between base and mark (the mark included) have a non-zero advance: the
+      known class "rtl-mark-advance".  Vertically the same, checked when the run has no cursive attachment.
+   2. (F25) a glyph that carries a MarkAnchor although EVERY mark lookup (types 4, 5, 6) of the program skips it by
+      its lookup flags was attached by an iteration that ignores the flags: class "mark-flags". *)
+let parse_ok (out : string) : (string list * string list) option =
+  if not (starts_with "ok:" out) then None else begin
+    let b = String.sub out 3 (String.length out - 3) in
+    match String.index_opt b '|' with
+    | Some i ->
+      let infos = String.sub b 0 i and rest = String.sub b (i + 1) (String.length b - i - 1) in
+      if starts_with "pos:" rest then
+        let p = String.sub rest 4 (String.length rest - 4) in
+        Some ((if infos = "" then [] else split_on ',' infos), (if p = "" then [] else split_on ',' p))
+      else None
+    | None -> None
+  end
+
+let placement_of (info : string) : string list =
+  match String.index_opt info '/' with
+  | Some i -> split_on '.' (String.sub info (i + 1) (String.length info - i - 1))
+  | None -> []
+
+let oracle_positions (input : string) (impl : string) : (string * string) option =
+  try
+    match parse_ok impl with
+    | None -> None
+    | Some (infos, poss) ->
+      let (_, tree) = split_input input in
+      let rtl = (match tree with
+          | L [_; _; L (I k :: rest); _] ->
+            (match zi k, rest with
+             | 0, [_; _; _; _; _; d; _] -> zi (int_ d) <> 0
+             | 1, [_; d; _] -> zi (int_ d) <> 0
+             | 2, [_; _; d; _] -> zi (int_ d) <> 0
+             | _ -> false)
+          | _ -> false) in
+      let pos = Array.of_list (List.map (fun p -> Array.of_list (List.map int_of_string (split_on '.' p))) poss) in
+      let n = Array.length pos in
+      let pen i = (* LTR: sum of advances before i; RTL: minus the sum up to and including i *)
+        let s = ref 0 in
+        if rtl then (for k = 0 to i do s := !s + pos.(k).(0) done; - !s)
+        else (for k = 0 to i - 1 do s := !s + pos.(k).(0) done; !s) in
+      let gx i = pen i + pos.(i).(2) and gy i = pos.(i).(3) in
+      let has_cursive = List.exists (fun i -> match placement_of i with "C" :: _ -> true | _ -> false) infos in
+      let res = ref None in
+      List.iteri (fun j info ->
+          if !res = None then
+            match placement_of info with
+            | ["M"; b; bx; by; mx; my] ->
+              let b = int_of_string b in
+              if b >= 0 && b < j && j < n then begin
+                let dx = int_of_string bx - int_of_string mx and dy = int_of_string by - int_of_string my in
+                if gx j - gx b <> dx then
+                  res := Some ((if rtl then "rtl-mark-advance" else "position"),
+                               Printf.sprintf "mark %d is %d to the right of its base %d, anchors say %d%s" j (gx j - gx b) b dx
+                                 (if rtl then " (right-to-left run, glyphs with an advance between base and mark)" else ""))
+                else if (not has_cursive) && gy j - gy b <> dy then
+                  res := Some ("position", Printf.sprintf "mark %d is %d above its base %d, anchors say %d" j (gy j - gy b) b dy)
+              end
+            | _ -> ()) infos;
+      !res
+  with _ -> None
+
+let oracle_mark_flags (input : string) (impl : string) : string option =
+  try
+    match parse_ok impl with
+    | None -> None
+    | Some (infos, _) ->
+      let (_, tree) = split_input input in
+      (match tree with
+       | L [gd; L [_; _; lk]; L (I k :: _); L gl] when zi k = 0 ->
+         let gd = gdef_ gd in
+         let mark_lookups = (match lk with
+             | L [L ls] -> List.filter_map (function
+                 | L [_; I flag; mfs; I ty; _] when zi ty = 4 || zi ty = 5 || zi ty = 6 -> Some (flag, opt int_ mfs)
+                 | _ -> None) ls
+             | _ -> []) in
+         if mark_lookups = [] then None else begin
+           let ids = Array.of_list (List.map (function L (I id :: _) -> id | _ -> failwith "glyph") gl) in
+           let res = ref None in
+           List.iteri (fun j info ->
+               if !res = None then
+                 match placement_of info with
+                 | "M" :: _ when j < Array.length ids ->
+                   if List.for_all (fun (flag, mfs) -> skip_spec flag mfs gd ids.(j)) mark_lookups then
+                     res := Some (Printf.sprintf "glyph %d is attached as a mark although the lookup flags of every mark lookup skip it" j)
+                 | _ -> ()) infos;
+           !res
+         end
+       | _ -> None)
+  with _ -> None
+
+let judge (input : string) (impl : string) (model : string) : verdict =
+  match oracle_mark_flags input impl with
+  | Some why -> Violation ("mark-flags", why)
+  | None ->
+  match oracle_positions input impl with
+  | Some (cls, why) -> Violation (cls, why)
+  | None ->
   if impl = model then begin
     if impl = "panic" then Violation ("overflow", "16-bit kerning / anchor accumulation overflowed (the model reproduces the debug-build panic)")
     else Agree
